@@ -115,7 +115,7 @@ SPEC = {
         "TestNestedSections/factory_ctor_factory_2plus_products": 0.14,
         "TestNestedSections/nesting_component_inside_nesting_component": 0.25,
         "TestNestedSections/nested_factory_called_2plus_times": 0.18,
-        "TestNestedSections/nested_error_at_decode": 0.035, "TestNestedSections/nested_error_at_every_product": 0.02,
+        "TestNestedSections/nested_error_at_decode": 0.028, "TestNestedSections/nested_error_at_every_product": 0.02,
         "TestNestedSections/field_factory_err": 0.25, "TestNestedSections/field_factory_noerr": 0.2,
         "TestShapes/factory_with_2plus_products": 0.5, "TestShapes/error_as_result": 0.38, "TestShapes/error_as_panic": 0.3,
         "TestShapes/fillconf_error": 0.18, "TestShapes/constructor_error": 0.2, "TestShapes/registered_factory_error": 0.2,
